@@ -174,7 +174,13 @@ func pgpKey(info Info, data []byte) (Info, error) {
 
 	for _, s := range e.Subkeys {
 		attrs := gpgPublicKeyAttributes(s.PublicKey)
-		for _, a := range gpgSignatureAttributes(s.Sig, s.PublicKey.CreationTime) {
+		sig := s.Sig
+		if sig.SigType == packet.SigTypeSubkeyRevocation && s.BindingSig != nil {
+			// usage and lifetime of a revoked subkey are those its binding signature states; the
+			// revocation signature carries neither ("Usage: " and "Expires: never" were shown)
+			sig = s.BindingSig
+		}
+		for _, a := range gpgSignatureAttributes(sig, s.PublicKey.CreationTime) {
 			if a.Name == "Created" {
 				// the subkey's own creation time (what gpg --list-keys shows), not the
 				// date of its binding signature, which is renewed e.g. when the expiry changes
